@@ -197,6 +197,9 @@ func mergeExports(exports []*export) (map[string][]byte, error) {
 					return pool, fmt.Errorf("exported index.json: %w", err)
 				}
 				descs = append(descs, idx.Manifests...)
+				if len(idx.Manifests) > 0 {
+					ex.desc = idx.Manifests[0]
+				}
 			default:
 				if m := reBlobPath.FindStringSubmatch(e.name); m != nil {
 					pool[m[1]+":"+m[2]] = e.data
